@@ -1005,9 +1005,13 @@ func propStream(t *rapid.T, s *sctx, focus string) {
 	rd, rk := drawReader(t, b)
 	cls = append(cls, "reader:"+rk)
 	key := fmt.Sprintf("%s raw=%v nosub=%v %v %s %x", s.curve, raw, nosub, script, rk, b)
-	presize := make([]bool, len(script))
+	// destination of each Decode: 0 fresh; 1 a used slice of exactly the announced length; 2 a used, LONGER slice;
+	// 3 a used, shorter one (a Decoder variable reused across messages of different sizes)
+	presize := make([]int, len(script))
 	for i := range presize {
-		presize[i] = rapid.IntRange(0, 3).Draw(t, fmt.Sprintf("presize%d", i)) == 0
+		if rapid.IntRange(0, 2).Draw(t, fmt.Sprintf("presize%d", i)) == 0 {
+			presize[i] = rapid.IntRange(1, 3).Draw(t, fmt.Sprintf("presizemode%d", i))
+		}
 	}
 	s.checkDecode(t, test, script, b, nosub, rd, rk, presize, &cls)
 	nontrivial := true // every stream here has a slice/nested value, a mutation, a short-read reader or an option, or is a mixed sequence
@@ -1022,7 +1026,7 @@ func propStream(t *rapid.T, s *sctx, focus string) {
 // the item on success). An item the format rejects only because of points in a listed known finding
 // (F5, F41) may either fail (correct) or decode to exactly the pinned value with exact counters and
 // re-encoding; decoding then continues behind it.
-func (s *sctx) checkDecode(t fataler, test string, script []string, b []byte, nosub bool, rd io.Reader, rk string, presize []bool, cls *[]string) {
+func (s *sctx) checkDecode(t fataler, test string, script []string, b []byte, nosub bool, rd io.Reader, rk string, presize []int, cls *[]string) {
 	off := 0
 	cr := &countR{r: rd}
 	dec := s.newDecoder(cr, nosub)
@@ -1039,12 +1043,22 @@ func (s *sctx) checkDecode(t fataler, test string, script []string, b []byte, no
 			pinnedOK = pk && len(pins) > 0
 		}
 		dst := reflect.New(s.goType(kd))
-		if presize != nil && presize[i] && dst.Elem().Kind() == reflect.Slice && ok {
-			// decode into an existing slice of the announced length holding other data
+		if presize != nil && presize[i] != 0 && dst.Elem().Kind() == reflect.Slice && ok {
+			// decode into an existing slice (of the announced length, longer, or shorter) holding other data;
+			// nested slices hold used inner slices too
 			n := int(binary.BigEndian.Uint32(b[off:]))
-			dst.Elem().Set(reflect.MakeSlice(dst.Elem().Type(), n, n))
+			switch presize[i] {
+			case 2:
+				n += 1 + n%3
+			case 3:
+				n -= 1 + n%2
+				if n < 0 {
+					n = 0
+				}
+			}
+			dst.Elem().Set(usedSlice(dst.Elem().Type(), n))
 			poison(dst.Elem())
-			*cls = append(*cls, "dst:presized")
+			*cls = append(*cls, "dst:presized", []string{"", "dst:presized_exact", "dst:presized_longer", "dst:presized_shorter"}[presize[i]])
 		}
 		err := reg.Err(reg.M(dec, "Decode", dst.Interface()))
 		br := reg.M(dec, "BytesRead")[0].(int64)
@@ -1118,6 +1132,17 @@ func contains(xs []string, x string) bool {
 }
 
 // poison fills every uint64 word reachable in v with a pattern.
+// usedSlice builds a slice of n elements whose nested slices (if any) are non-empty as well.
+func usedSlice(typ reflect.Type, n int) reflect.Value {
+	v := reflect.MakeSlice(typ, n, n)
+	if typ.Elem().Kind() == reflect.Slice {
+		for i := 0; i < n; i++ {
+			v.Index(i).Set(usedSlice(typ.Elem(), 1+i%3))
+		}
+	}
+	return v
+}
+
 func poison(v reflect.Value) {
 	switch v.Kind() {
 	case reflect.Slice, reflect.Array:
